@@ -288,7 +288,7 @@ type lwResp struct {
 func describe(w *loop.World, ev loop.Event) lwSucc {
 	key := w.Key()
 	s := lwSucc{Ev: ev, Key: key}
-	s.Spent = w.BudgetW == 0 && w.BudgetF == 0 && w.BudgetD == 0 && !strings.Contains(keyFaults(key), "true")
+	s.Spent = w.BudgetW == 0 && w.BudgetF == 0 && w.BudgetD == 0 && w.BudgetK == 0 && !strings.Contains(keyFaults(key), "true")
 	s.Conv, _ = w.Converged()
 	for _, e := range w.Enabled(true) {
 		s.Enabled = append(s.Enabled, e.String())
